@@ -100,7 +100,9 @@ func c19Subjects() []c19Subject {
 	}
 	dbBytes := refesl.Encode([]refesl.List{
 		refesl.Mk(refesl.X509, uint32(16+len(keys.C(1).Raw)), refesl.Entry{Owner: ownerA, Data: keys.C(1).Raw}),
-		refesl.Mk(refesl.SHA256, 48, refesl.Entry{Owner: ownerA, Data: fill(32, 1)}, refesl.Entry{Owner: ownerB, Data: fill(32, 2)})})
+		refesl.Mk(refesl.SHA256, 48, refesl.Entry{Owner: ownerA, Data: fill(32, 1)}, refesl.Entry{Owner: ownerB, Data: fill(32, 2)}),
+		// ten hashes in descending (enrolment, not sorted) order
+		refesl.Mk(refesl.SHA256, 48, c19BigList()...)})
 	h1 := signature.SignatureData{Owner: unwire(ownerA), Data: fill(32, 1)}
 	dbOps := []c19Op{
 		{"Bytes", func(o any) string { return sum(o.(*signature.SignatureDatabase).Bytes()) }},
@@ -116,6 +118,15 @@ func c19Subjects() []c19Subject {
 			l := signature.NewSignatureList(signature.CERT_SHA256_GUID)
 			l.AppendBytes(h1.Owner, h1.Data)
 			return fmt.Sprint(o.(*signature.SignatureDatabase).Exists(signature.CERT_SHA256_GUID, l))
+		}},
+		{"Exists(10 entries)", func(o any) string {
+			l := signature.NewSignatureList(signature.CERT_SHA256_GUID)
+			for _, e := range c19BigList() {
+				l.AppendBytes(unwire(e.Owner), e.Data)
+			}
+			before := sum(l.Bytes())
+			r := fmt.Sprint(o.(*signature.SignatureDatabase).Exists(signature.CERT_SHA256_GUID, l))
+			return r + " query list " + fmt.Sprint(before == sum(l.Bytes()))
 		}},
 		{"BytesExists", func(o any) string {
 			return fmt.Sprint(o.(*signature.SignatureDatabase).BytesExists(signature.CERT_X509_GUID, unwire(ownerA), keys.C(1).Raw))
@@ -160,6 +171,18 @@ func c19Subjects() []c19Subject {
 			return m
 		}, func(o any) string { return deepdump.Dump(o) }, updOps},
 	}
+}
+
+func c19BigList() []refesl.Entry {
+	var es []refesl.Entry
+	for i := 10; i >= 1; i-- {
+		o := ownerA
+		if i%3 == 0 {
+			o = ownerB
+		}
+		es = append(es, refesl.Entry{Owner: o, Data: fill(32, byte(0x10*i))})
+	}
+	return es
 }
 
 // ---- cooperative scheduler + preemption-bounded DFS ----
